@@ -16,7 +16,7 @@ import ast
 import re
 from typing import Dict, List, Optional, Set, Tuple
 
-from sa import regexlang
+from sa import regexlang, sqlx
 from sa.callgraph import callgraph
 from sa.cfg import CFG, describe_path
 from sa.checks.c19 import integer_csv_guard, loaded_table_checks_on_every_path, pattern
@@ -76,6 +76,11 @@ def run(rep: Report, tier: str) -> None:
     rep.rule("R20.1", "the two validators perform the same rejecting checks; duplicates are checked on cast values")
     loaded_table_checks_on_every_path(P, rep, "R20.1")
     integer_csv_guard(P, rep, "R20.3")
+    # ---- R20.4 what the run-side normaliser does with spellings and with values that are not periods ----
+    rep.rule("R20.4", "Time_Period normalisation on the run side: every accepted spelling -> canonical text; a non-null value that is no period is never turned into NULL (validate_dataset rejects it)")
+    from sa.checks.c19 import period_limits
+    from sa.checks.c21 import spelling_grid
+    spelling_grid(rep, "R20.4", {k.lower(): v for k, v in sqlx.load_macros(P).items()}, period_limits(P), null_clause=True)
     rep.rule("R20.2", "the two validators accept the same strings for Date / Time / Time_Period (witness for every difference)")
 
     # ---- R20.1 ------------------------------------------------------------------------------------------
